@@ -134,7 +134,7 @@ let areply_of (e : lent) : areply =
   | 9 -> AUnexpected | _ -> ADeserErr
 let rreply_of (e : lent) : rreply =
   match e.e_cls with
-  | 0 | 2 | 5 -> RReceipt (n_of_int e.e_v1, n_of_int e.e_v2, n_of_int e.e_v3, true)
+  | 0 | 2 | 5 | 6 -> RReceipt (n_of_int e.e_v1, n_of_int e.e_v2, n_of_int e.e_v3, true)
   | 1 -> RReceipt (n_of_int e.e_v1, n_of_int e.e_v2, n_of_int e.e_v3, false)
   | 4 -> RApiErr
   | _ -> RDeserErr
